@@ -21,31 +21,36 @@ def Num.json : Num → Json
   | .int n => .int n
   | .float x => .float x
 
-/-- `low != float('-inf')` -/
-def Num.isNegInf : Num → Bool
-  | .float .negInf => true
-  | _ => false
+/-- `finite(b)` of declare_numeric_bounds: `not (isinstance(b, float) and (b != b or b in (inf, -inf)))` -/
+def Num.isFinite : Num → Bool
+  | .int _ => true
+  | .float x => x.isFinite
 
-/-- `high != float('inf')` -/
-def Num.isPosInf : Num → Bool
-  | .float .posInf => true
-  | _ => false
+/-- the declared bounds can be met by some number at all: the lower bound is a number or `-inf`,
+the upper bound a number or `+inf` (a lower bound `+inf`/`nan`, an upper bound `-inf`/`nan` admit
+no value; JSON Schema has no keyword operand for them and the code writes nothing) -/
+def Bounds.sane (b : Bounds) : Bool :=
+  match b.range with
+  | none => true
+  | some (lo, hi) =>
+    (match lo with | some l => l.isFinite || l == .float .negInf | none => true) &&
+    (match hi with | some h => h.isFinite || h == .float .posInf | none => true)
 
 /-- src: serializer.py JSONSerialization.declare_numeric_bounds
-(the keys are fresh, so `schema[key] = …` appends; a lower bound `-inf` and an upper bound
-`+inf` are skipped) -/
+(the keys are fresh, so `schema[key] = …` appends; a bound that is a non-finite float — nan,
++inf or -inf on either side — is skipped) -/
 def declareNumericBounds (schema : List (String × Json)) (b : Bounds) : List (String × Json) :=
   match b.range with
   | none => schema
   | some (lo, hi) =>
     let s1 := match lo with
       | some l =>
-        if l.isNegInf then schema
+        if !l.isFinite then schema
         else schema ++ [(if b.incLo then "minimum" else "exclusiveMinimum", l.json)]
       | none => schema
     match hi with
     | some h =>
-      if h.isPosInf then s1
+      if !h.isFinite then s1
       else s1 ++ [(if b.incHi then "maximum" else "exclusiveMaximum", h.json)]
     | none => s1
 
